@@ -149,6 +149,27 @@ def socket_source(data: bytes, chunks, buffered: bool, delay: float = 0.0):
     return (io.BufferedReader(raw) if buffered else raw), raw, t
 
 
+class FailingRaw(DribbleRaw):
+    """Non-seekable raw source whose transport FAILS once `fail_at` bytes were delivered: the read raises exc_type
+    (ConnectionResetError, BrokenPipeError, TimeoutError, ...) instead of returning data or end-of-file."""
+
+    def __init__(self, data: bytes, schedule, fail_at: int, exc_type=ConnectionResetError):
+        super().__init__(data, schedule)
+        self.fail_at = fail_at
+        self.exc_type = exc_type
+
+    def readinto(self, b):
+        if self.pos >= self.fail_at:
+            self.log.append((len(b), -2))
+            raise self.exc_type("transport failed (injected)")
+        keep = self.data
+        try:
+            self.data = keep[:self.fail_at]          # never deliver beyond the failure point
+            return super().readinto(b)
+        finally:
+            self.data = keep
+
+
 class EOFSpin(BaseException):
     """The reader keeps polling a source that has signalled end-of-file (a hang in the making).
 
